@@ -389,6 +389,47 @@ pub fn sites(thorough: bool) -> Vec<Site> {
         }),
         Box::new(|b, _| walk_ok(&tables::rqsc::Rqsc, b)),
     );
+    // ---- limits reached by the SUM of two variable parts (neither extreme on its own): for every residue of the first
+    // part modulo the second part's element size, the element count at which the total crosses the field maximum
+    for k in 0..=24u64 {
+        // platform node: 12 + name + NUL + 20 * mappings <= 65535
+        let max = (65_535 - 13 - k) / 20;
+        add(
+            Box::leak(format!("RIMT platform id mappings with a {}-byte name (2-byte node length: 13 + {} + 20n)", k, k).into_boxed_str()),
+            max,
+            &[max + 1, max + 2],
+            false,
+            Box::new(move |n| {
+                let mut t = rimt::RIMT::new(c().oem_id(), c().oem_table_id(), c().oem_rev());
+                let h = t.add_iommu(rimt::Iommu::new(1, None, None, None, None));
+                let m = (0..n).map(|i| rimt::IdMapping::new(i as u32, 0, 1, h, false, false, false)).collect();
+                t.add_platform(rimt::Platform::new(3, "N".repeat(k as usize), Some(m)));
+                ser(&t)
+            }),
+            Box::new(|b, _| walk_ok(&tables::topo::Rimt, b)),
+        );
+    }
+    for k in 0..=24u64 {
+        // controller: 28 + (8 + 12 + k) vendor resource (resource ids 1 and 2 + k data bytes) + 20 * cache resources <= 65535
+        let max = (65_535 - 28 - 20 - k) / 20;
+        add(
+            Box::leak(format!("RQSC cache resources after a vendor resource of {} data bytes (2-byte controller length: 48 + {} + 20n)", k, k).into_boxed_str()),
+            max,
+            &[max + 1, max + 2],
+            false,
+            Box::new(move |n| {
+                let mut t = rqsc::RQSC::new(c().oem_id(), c().oem_table_id(), c().oem_rev());
+                let mut q = rqsc::QoSController::new(rqsc::ControllerType::Capacity, acpi_tables::gas::GAS::default(), 1, 1, 0);
+                q.add_resource(rqsc::ResourceStructure::new(rqsc::ResourceType::Cache, 0, rqsc::ResourceID::VendorSpecific(0x80, vec![0x5a; 12 + k as usize])));
+                for i in 0..n {
+                    q.add_resource(rqsc::ResourceStructure::new(rqsc::ResourceType::Cache, 0, rqsc::ResourceID::Cache(rqsc::CacheResource::new(i as u32))));
+                }
+                t.add_controller(q);
+                ser(&t)
+            }),
+            Box::new(|b, _| walk_ok(&tables::rqsc::Rqsc, b)),
+        );
+    }
     if thorough {
         // inclusive PkgLength with real bodies around 2^28 (one kind per width of the object header)
         add(
